@@ -382,6 +382,109 @@ static void do_tu(CMR* cmr)
   CMRchrmatFree(cmr, &M);
 }
 
+/* ---------- C02: regularity ---------- */
+
+/* case: cfg M     record: ncfg cfg M rc verdict(0/1/2) */
+static void do_regular(CMR* cmr)
+{
+  read_cfg();
+  CMR_CHRMAT* M = read_chrmat(cmr);
+  CMR_REGULAR_PARAMS params;
+  CMRregularParamsInit(&params);
+  seymour_params_from_cfg(&params.seymour);
+  unsigned char flag = 2;
+  CMR_ERROR rc = CMRregularTest(cmr, M, (bool*) &flag, NULL, NULL, &params, NULL, DBL_MAX);
+  rec_begin();
+  o_cfg();
+  o_chr_dense(M);
+  oi(rc);
+  oi(flag);
+  rec_end();
+  CMRchrmatFree(cmr, &M);
+}
+
+/* ---------- C13: pivots ---------- */
+
+static CMR_ERROR pivots_call(CMR* cmr, long long q, CMR_CHRMAT* M, size_t np, size_t* pr, size_t* pc, CMR_SUBMAT** pviol,
+  CMR_CHRMAT** pres)
+{
+  if (q == 2)
+    return np == 1 ? CMRchrmatBinaryPivot(cmr, M, pr[0], pc[0], pres) : CMRchrmatBinaryPivots(cmr, M, np, pr, pc, pres);
+  if (q == 3)
+    return np == 1 ? CMRchrmatTernaryPivot(cmr, M, pr[0], pc[0], pres) : CMRchrmatTernaryPivots(cmr, M, np, pr, pc, pres);
+  return np == 1 ? CMRchrmatRegularPivot(cmr, M, pr[0], pc[0], pviol, pres)
+    : CMRchrmatRegularPivots(cmr, M, np, pr, pc, pviol, pres);
+}
+
+static void o_pivot_result(CMR_ERROR rc, CMR_CHRMAT* res, CMR_SUBMAT* viol)
+{
+  oi(rc);
+  oi(res ? 1 : 0);
+  if (res)
+    o_chr_csr(res);
+  oi(viol ? 1 : 0);
+  if (viol)
+    o_submat(viol);
+}
+
+/* case: q M np rows.. np cols..    record: q M np rows np cols | rc hasRes [csr] hasViol [sub] | (one-by-one) rc hasRes [csr] hasViol [sub] */
+static void do_pivot(CMR* cmr)
+{
+  long long q = nx();
+  CMR_CHRMAT* M = read_chrmat(cmr);
+  size_t np = nx();
+  size_t* pr = malloc((np + 1) * sizeof(size_t));
+  size_t* pc = malloc((np + 1) * sizeof(size_t));
+  for (size_t i = 0; i < np; ++i)
+    pr[i] = nx();
+  size_t np2 = nx();
+  for (size_t i = 0; i < np2 && i < np; ++i)
+    pc[i] = nx();
+  CMR_CHRMAT* res = NULL;
+  CMR_SUBMAT* viol = NULL;
+  CMR_ERROR rc = np ? pivots_call(cmr, q, M, np, pr, pc, &viol, &res) : CMR_OKAY;
+  if (!np)
+    CMRchrmatCopy(cmr, M, &res);
+  rec_begin();
+  oi(q);
+  o_chr_dense(M);
+  osz(np);
+  for (size_t i = 0; i < np; ++i)
+    osz(pr[i]);
+  osz(np);
+  for (size_t i = 0; i < np; ++i)
+    osz(pc[i]);
+  o_pivot_result(rc, rc ? NULL : res, rc ? NULL : viol);
+  if (res)
+    CMRchrmatFree(cmr, &res);
+  if (viol)
+    CMRsubmatFree(cmr, &viol);
+
+  /* the same pivots one at a time */
+  CMR_CHRMAT* cur = NULL;
+  CMRchrmatCopy(cmr, M, &cur);
+  CMR_ERROR rc1 = CMR_OKAY;
+  CMR_SUBMAT* viol1 = NULL;
+  for (size_t i = 0; i < np && !rc1 && cur; ++i)
+  {
+    CMR_CHRMAT* next = NULL;
+    rc1 = pivots_call(cmr, q, cur, 1, &pr[i], &pc[i], &viol1, &next);
+    CMRchrmatFree(cmr, &cur);
+    cur = rc1 ? NULL : next;
+    if (rc1 && next)
+      CMRchrmatFree(cmr, &next);
+  }
+  o_pivot_result(rc1, rc1 ? NULL : cur, rc1 ? NULL : viol1);
+  rec_end();
+  if (cur)
+    CMRchrmatFree(cmr, &cur);
+  if (viol1)
+    CMRsubmatFree(cmr, &viol1);
+  free(pr);
+  free(pc);
+  CMRchrmatFree(cmr, &M);
+}
+
 /* ---------- dispatch ---------- */
 
 typedef void (*handler)(CMR*);
@@ -393,6 +496,8 @@ static struct
   {"ctu_compl", do_ctu_compl},
   {"ctu_test", do_ctu_test},
   {"tu", do_tu},
+  {"regular", do_regular},
+  {"pivot", do_pivot},
   {NULL, NULL}
 };
 
